@@ -25,7 +25,8 @@ def run(prog, chk):
         "each glyph is drawn exactly once, directly into its charstring pen, in glyph-order (R01.5)",
         "glyph geometry is not rounded inside the pre-processing filters or the decomposition helper: coordinates are rounded once, when written (R01.6)",
     ]
-    chk.decided += ["components are only resolved into contours by util.decomposeCompositeGlyph; no other decomposing pen / component removal outside reviewed functions (R01.7, shared with C15)"]
+    chk.decided += ["components are only resolved into contours by util.decomposeCompositeGlyph; no other decomposing pen / component removal outside reviewed functions (R01.7, shared with C15)",
+                    "the outline compilers generate a glyph only for a name the glyph set lacks: a source glyph is never replaced by a generated one (R01.8, shared with C02)"]
     chk.not_decided += ["that drawn coordinates equal the source (fontTools pens)", "composition of nested transforms", "semantics of roundTolerance inside T2CharStringPen"]
     chk.guard(r011, prog, chk)
     chk.guard(r012, prog, chk, "R01.2")
@@ -35,6 +36,7 @@ def run(prog, chk):
     chk.guard(r016, prog, chk)
     from .c15 import check_single_decomposer
     chk.guard(check_single_decomposer, prog, chk, "R01.7")
+    chk.guard(check_only_missing_glyphs_added, prog, chk, "R01.8")
 
 
 # ----------------------------------------------------------------------------- R01.1
@@ -283,7 +285,35 @@ def r016(prog, chk):
     chk.minimum("R01.6", 3)
 
 
+
+# ----------------------------------------------------------------------------- R01.8
+def check_only_missing_glyphs_added(prog, chk, rule):
+    """The outline compilers generate a glyph (.notdef, empty bases of sparse composites) only for a name that the
+    glyph set does not have: a source glyph, however empty, is an exported glyph like any other and is never
+    replaced by a generated one."""
+    ix = prog.ix
+    n = 0
+    for cq in (BASE_OUTLINE, OTF_OUTLINE, "ufo2ft.outlineCompiler.OutlineTTFCompiler"):
+        m = ix.get_class(cq).methods.get("makeMissingRequiredGlyphs")
+        if m is None:
+            continue
+        gs = m.params()[2]
+        for st, t, v in subscript_stores(m):
+            if T(t.value) != gs:
+                continue
+            n += 1
+            fs = facts(prog, m, st)
+            ok = any(o == "notin" and l == T(t.slice) and r == gs for o, l, r in fs)
+            chk.ob(rule, f"{m.short}|{A.keytext(m.node, st)}|generated glyphs only fill names the glyph set lacks", ok, where(m, st), detail=f"{T(t.slice)} not in {gs}",
+                   message=f"{m.short}: `{T(st, 60)}` can replace a glyph that exists in the source (it is not guarded by `{T(t.slice)} not in {gs}`): the compiled font then "
+                           f"shows a generated outline / advance instead of the source's")
+    need(n >= 2, "makeMissingRequiredGlyphs: glyph set stores not found")
+    chk.minimum(rule, 2)
+
+
 MUTANTS = [
+    M("blank .notdef of the source replaced by the generated one (seeded C01e)", "ufo2ft/outlineCompiler.py", "BaseOutlineCompiler.makeMissingRequiredGlyphs",
+      "'.notdef' in glyphSet", "'.notdef' in glyphSet and (len(glyphSet['.notdef']) or glyphSet['.notdef'].width)", rule="R01.8"),
     M("component offsets snapped to the grid before decomposition (seeded C01c)", "ufo2ft/filters/decomposeComponents.py", "DecomposeComponentsFilter.filter",
       "decomposeCompositeGlyph(glyph, self.context.glyphSet)",
       "for component in glyph.components:\n    t = component.transformation\n    component.transformation = (t[0], t[1], t[2], t[3], otRound(t[4]), otRound(t[5]))\ndecomposeCompositeGlyph(glyph, self.context.glyphSet)", rule="R01.6"),
